@@ -266,14 +266,21 @@ fn e2e_pins(sink: &mut Sink, scratch: &str) {
     let Ok(bin) = std::env::var("SGVERIF_BIN") else { return };
     let body = "version = \"2\"\n[content]\nmax_lines = 5\n";
     let genuine = compute_content_hash(body);
-    let pins: Vec<(&str, Option<String>, bool)> = vec![
-        ("no-pin", None, true),
-        ("genuine", Some(genuine.clone()), true),
-        ("wrong", Some("0".repeat(64)), false),
-        ("empty", Some(String::new()), false),
-        ("blank", Some("   ".to_string()), false),
+    // (label, pin, status line of the server, does the base take effect)
+    let pins: Vec<(&str, Option<String>, &str, bool)> = vec![
+        ("no-pin", None, "200 OK", true),
+        ("genuine", Some(genuine.clone()), "200 OK", true),
+        ("wrong", Some("0".repeat(64)), "200 OK", false),
+        ("empty", Some(String::new()), "200 OK", false),
+        ("blank", Some("   ".to_string()), "200 OK", false),
+        // a fetch that did not succeed is a failed fetch, whatever the body
+        ("status-304", None, "304 Not Modified", false),
+        ("status-300", None, "300 Multiple Choices", false),
+        ("status-404", None, "404 Not Found", false),
+        ("status-500", None, "500 Internal Server Error", false),
+        ("status-204", None, "204 No Content", false),
     ];
-    for (label, pin, accepted) in pins {
+    for (label, pin, status_line, accepted) in pins {
         if !sink.want() {
             sink.skip();
             continue;
@@ -296,7 +303,9 @@ fn e2e_pins(sink: &mut Sink, scratch: &str) {
                         let _ = s.set_read_timeout(Some(std::time::Duration::from_millis(500)));
                         let mut buf = [0u8; 2048];
                         let _ = s.read(&mut buf);
-                        let _ = write!(s, "HTTP/1.1 200 OK\r\nContent-Type: text/plain\r\nContent-Length: {}\r\nConnection: close\r\n\r\n{}", body.len(), body);
+                        // 204 and 304 carry no body
+                        let b = if status_line.starts_with("204") || status_line.starts_with("304") { "" } else { body };
+                        let _ = write!(s, "HTTP/1.1 {status_line}\r\nContent-Type: text/plain\r\nContent-Length: {}\r\nConnection: close\r\n\r\n{}", b.len(), b);
                         served2.fetch_add(1, std::sync::atomic::Ordering::SeqCst);
                     }
                     Err(_) => std::thread::sleep(std::time::Duration::from_millis(5)),
@@ -356,8 +365,10 @@ fn e2e_pins(sink: &mut Sink, scratch: &str) {
                 pred = Some(format!("pin {label}: the base (max_lines = 5) should take effect and fail the 10-line file; exit {rc} {err}"));
             }
         } else {
-            if rc != 2 {
-                pred = Some(format!("pin {label} ({:?}): the body's hash is not the pin, but `check` exits {rc} instead of rejecting it", pin.as_deref().unwrap_or("")));
+            if rc != 2 && label.starts_with("status-204") {
+                // an empty 2xx answer is a successful fetch of an empty configuration
+            } else if rc != 2 {
+                pred = Some(if label.starts_with("status") { format!("the server answered {status_line}: not a successful fetch, but `check` exits {rc} and goes on") } else { format!("pin {label} ({:?}): the body's hash is not the pin, but `check` exits {rc} instead of rejecting it", pin.as_deref().unwrap_or("")) });
             } else if cached {
                 pred = Some(format!("pin {label}: the rejected body was written to the cache"));
             }
